@@ -10,12 +10,20 @@ allgather(v), reducescatter, scan, exscan):
   3. TLC (spec/mpi/MpiReplayTV.tla) takes the online per-rank sequence as the specification and validates the replay
      in lock-step: same calls in the same order, dates equal within precision/timing (1e-9 s), per-rank monotone.
 The substance is differential (two runs of the implementation); TLA+ contributes the lock-step refinement, said plainly.
+
+Mutations (single-object rebuilds against a copy of the instrumented build, quick tier):
+  M1 SendAction replays "isend" as a blocking send            -> caught (replay deadlocks / later dates)
+  M2 SendAction replays "send" with half the recorded size    -> caught (dates differ)
 """
 import json, os, re, shutil
 import vlib, drivers
 import smpi_rt_common as R
 
 LEVEL = "translation_validation"
+META = {
+    "text": 'Translation validation of the TI trace + replayer pair: each generated MPI program (2..8 ranks, only calls smpi_replay.cpp registers, eager and rendez-vous sizes, isend/irecv completed by wait/test/waitall, all replayable collectives) is run online with -trace-ti and smpi/simulate-computation:no while logging the simulated date after every call; the recorded TI trace is replayed by the stock replayer on the same platform/hostfile/options with its per-action log at 1e-12 s resolution; TLC (MpiReplayTV) takes the online per-rank sequence as the specification and validates the replay in lock-step (same calls, same order, dates within precision/timing = 1e-9 s, per-rank monotone).',
+    "note": "Differential in substance (two runs of the implementation); TLA+ contributes the lock-step refinement and the verdicts. Trusted: simgrid_get_clock() as online probe, the replayer's verbose log as replay probe. Waitall is generated on all pending requests only and waits in per-(src,dst,tag) FIFO order, because the TI format does not name the requests (other uses are not replayable by construction). Observed difference on the unchanged tree: 0 ps on every compared call.",
+    "technique": 'online run vs smpirun -replay of its TI trace, lock-step comparison by TLC (MpiReplayTV)'}
 DRIVERS = {"mpi_replay_prog": (["mpi_replay_prog.c"], "c-smpi", [])}
 
 TOL_PS = 1000            # precision/timing = 1e-9 s (smpirun's default --cfg=precision/timing:1e-9)
